@@ -326,7 +326,82 @@ func c18R2(h H) {
 	r.Check(bad == 0, "R2", "gzip/never-sets-content-length", token.NoPos, "no function of package gzip sets or adds a Content-Length header")
 }
 
+// c18R3: decided as a table of the gzip directive's parser (E10); the dataflow formulation (c18R3Patterns) is kept
+// for reference and no longer registered.
 func c18R3(h H) {
+	r := h.r
+	r.Rule("R3", "SkipCompressedFilter is always installed, as a table (E10): gzipParse, evaluated on `gzip`, `gzip { min_length 100 }`, `gzip { ext .txt .html ⏎ not /api ⏎ level 5 }` and two gzip directives in one block, returns one configuration per directive and each of them has the already-compressed filter among its response filters", 1)
+	fn := h.fn("R3", gzPkg, "gzipParse")
+	if fn == nil {
+		return
+	}
+	ctlT := fn.Params[0].Type().(*types.Pointer).Elem()
+	scripts := [][][]string{
+		{{"gzip"}},
+		{{"gzip", "{"}, {"min_length", "100"}, {"}"}},
+		{{"gzip", "{"}, {"ext", ".txt", ".html"}, {"not", "/api"}, {"level", "5"}, {"}"}},
+		{{"gzip"}, {"gzip", "{"}, {"ext", ".css"}, {"}"}},
+	}
+	bad, n := "", 0
+	for _, lines := range scripts {
+		n++
+		var text []string
+		ndir := 0
+		for _, l := range lines {
+			text = append(text, strings.Join(l, " "))
+			if l[0] == "gzip" {
+				ndir++
+			}
+		}
+		desc := "`" + strings.Join(text, " ⏎ ") + "`"
+		c := mkController(ctlT, lines)
+		if c == nil {
+			r.Unresolve("R3", "casket.Controller: embedded dispenser not found")
+			return
+		}
+		env := &absEnv{noFork: true, maxSteps: 400000, globals: map[string]*aobj{}}
+		res, und := env.run(fn, []aval{aptr{c, ""}})
+		if und != "" {
+			bad = desc + ": undecided — " + und
+			break
+		}
+		tp, ok := res.(atuple)
+		if !ok || len(tp) != 2 {
+			bad = desc + ": unexpected result " + describeAval(res)
+			break
+		}
+		if _, isNil := tp[1].(anil); !isNil {
+			bad = desc + ": the parser rejects the directive: " + describeAval(tp[1])
+			break
+		}
+		cfgs, ok := tp[0].(avals)
+		if !ok || len(cfgs.cells) != ndir {
+			bad = sprintf("%s: %d configurations expected, the parser returns %s", desc, ndir, describeAval(tp[0]))
+			break
+		}
+		for i, cell := range cfgs.cells {
+			has := false
+			switch fl := env.load(cell, "ResponseFilters").(type) {
+			case avals:
+				for _, fc := range fl.cells {
+					if iv, ok := env.cellVal(fc).(aiface); ok && strings.HasSuffix(iv.typ.String(), "gzip.SkipCompressedFilter") {
+						has = true
+					}
+				}
+			}
+			if !has {
+				bad = sprintf("%s: configuration %d has the response filters %s — the already-compressed filter is missing", desc, i, describeAval(env.load(cell, "ResponseFilters")))
+				break
+			}
+		}
+		if bad != "" {
+			break
+		}
+	}
+	r.Check(bad == "", "R3", "gzip.gzipParse/skip-filter-installed", fn.Pos(), "every gzip configuration carries the already-compressed filter", sprintf("%d directive texts evaluated", n), bad)
+}
+
+func c18R3Patterns(h H) {
 	r := h.r
 	r.Rule("R3", "SkipCompressedFilter is always installed: in gzipParse every append of a Config to the result is preceded on all paths by an append of SkipCompressedFilter{} to that Config's ResponseFilters", 1)
 	fn := h.fn("R3", gzPkg, "gzipParse")
